@@ -13,7 +13,7 @@ def pcOpOk : Pc → Op → Bool
   | .wantU, c => decide (c = .lock)
   | .unlocking, c => decide (c = .unlock)
   | .setting v, c => decide (c = .set v)
-  | .predChk f, c => isWait c && isPred c && (!f || isTimed c)
+  | .predChk f, c => isWait c && isPred c && (!f || isTimed c || isStop c)
   | .want, c | .locked, c | .released, c | .post _, c | .relockU _, c | .retn _, c => isWait c
   | .enq tm, c | .unl tm _, c | .wokeNL tm _, c | .relk tm _, c => isWait c && (tm == isTimed c)
   | .susp _, c => isWait c && !isTimed c
@@ -21,12 +21,17 @@ def pcOpOk : Pc → Op → Bool
   | .nWant, c | .nLocked, c | .nRet, c => isNotify c
   | .nAll, c => decide (c = .notify true)
   | .nDone, c => decide (c = .notify false)
+  | .sChk0, c | .sReg, c | .sRegLk, c | .sChk1, c | .sStopped, c | .sDtor _, c | .sRm _, c
+  | .sRmChk _, c | .sRmWait _, c => isStop c
+  | .cWant k, c | .cLocked k, c | .cAll k, c | .cRet k, c => if k then isStop c else decide (c = .stop)
+  | .rsWant, c | .rsLocked, c | .rsRelock, c | .rsRet _, c => decide (c = .stop)
+  | .postS _, c => decide (c = .swait true)
 
 /-- What the history flag `poppedOp` must be at each program counter. -/
 def poppedOk : Pc → Bool → Bool
-  | .locked, b | .released, b | .enq _, b => !b
+  | .locked, b | .released, b | .enq _, b | .sChk1, b => !b
   | .unl _ p, b | .susp p, b | .slp p, b | .wokeNL _ p, b | .relk _ p, b => p == b
-  | .post still, b | .relockU still, b => (!still) == b
+  | .post still, b | .relockU still, b | .postS still, b => (!still) == b
   | _, _ => true
 
 /-- Program counters that cannot occur as long as no timed wait was ever enqueued: timed
@@ -37,25 +42,47 @@ def badU : Pc → Bool
   | .wokeNL tm p | .relk tm p => tm || !p
   | _ => false
 
+/-- Result carried through `~stop_callback` of a stop-token wait. -/
+def dtorRes : Pc → Option Nat
+  | .sDtor r | .sRm r | .sRmChk r | .sRmWait r => some r
+  | _ => none
+
+/-- Program counters between a predicate evaluation that returned false and the release of
+    the user lock / the `return false` of the stop-token wait. -/
+def pfPc : Pc → Bool
+  | .want | .sChk1 | .sStopped => true
+  | _ => false
+
 structure Inv2 (s : St) : Prop where
   opOk : ∀ t, pcOpOk (s.pc t) (s.curOp t) = true
   predRes : ∀ t r, s.pc t = .retn r → isPred (s.curOp t) = true → r = b2n s.flag
   popped : ∀ t, poppedOk (s.pc t) (s.poppedOp t) = true
   timedRes : ∀ t r, s.pc t = .retn r → s.curOp t = .wait true false → r = b2n (!s.poppedOp t)
-  untimedRes : ∀ t r, s.pc t = .retn r → isTimed (s.curOp t) = false → r = b2n (isPred (s.curOp t))
+  untimedRes : ∀ t r, s.pc t = .retn r → isTimed (s.curOp t) = false → isStop (s.curOp t) = false →
+    r = b2n (isPred (s.curOp t))
   counts : ∀ t, s.pops t + b2n (inQ (s.pc t)) ≤ s.enqs t
   untimed : ∀ t, s.everTimed = false → badU (s.pc t) = false ∧ s.tok t = b2n (needTok (s.pc t))
+  predRes2 : ∀ t r, dtorRes (s.pc t) = some r → r = b2n s.flag
+  predFalse : ∀ t, isPred (s.curOp t) = true → pfPc (s.pc t) = true → s.flag = false
 
 theorem inv2_init (n : Nat) (f : Bool) : Inv2 (init n f) := by
-  refine ⟨?_, ?_, ?_, ?_, ?_, ?_, ?_⟩ <;> simp [init, pcOpOk, poppedOk, badU, b2n, inQ, needTok]
+  refine ⟨?_, ?_, ?_, ?_, ?_, ?_, ?_, ?_, ?_⟩ <;> simp [init, pcOpOk, poppedOk, badU, b2n, inQ, needTok, dtorRes, pfPc]
 
 attribute [local grind] holds holdsU noU inQ waitExp needTok setPopped b2n isTimed isPred isWait
-  isNotify pcOpOk poppedOk badU
+  isNotify pcOpOk poppedOk badU isStop dtorRes pfPc exitPc
+
+theorem isStop_facts {c : Op} (h : isStop c = true) :
+    isWait c = true ∧ isPred c = true ∧ isNotify c = false ∧ c = .swait (isTimed c) := by
+  cases c <;> simp [isStop] at h <;> simp [isWait, isPred, isTimed, isNotify]
+
+attribute [local grind →] isStop_facts
+
+set_option maxHeartbeats 1600000
 
 set_option hygiene false in
 macro "cv_step2" : tactic => `(tactic| (
   simp only [step] at h
-  obtain ⟨h1,h2,h3,h4,h4b,h5,h6⟩ := hi
+  obtain ⟨h1,h2,h3,h4,h4b,h5,h6,h7,h8⟩ := hi
   split at h
   case isFalse => simp at h
   rename_i hg
@@ -64,7 +91,7 @@ macro "cv_step2" : tactic => `(tactic| (
   all_goals (
     simp only [Option.some.injEq] at h
     subst h
-    refine ⟨?_, ?_, ?_, ?_, ?_, ?_, ?_⟩ <;> dsimp only
+    refine ⟨?_, ?_, ?_, ?_, ?_, ?_, ?_, ?_, ?_⟩ <;> dsimp only
   )
   all_goals first
     | assumption
@@ -74,16 +101,18 @@ macro "cv_step2" : tactic => `(tactic| (
 theorem setPopped_facts2 {p p' : Pc} (h : setPopped p = some p') :
     (∀ c, pcOpOk p' c = pcOpOk p c) ∧ (∀ r, p' ≠ .retn r) ∧ poppedOk p' true = true ∧
     inQ p = true ∧ inQ p' = false ∧
-    (badU p = false → badU p' = false ∧ needTok p = false ∧ needTok p' = true ∧ p ≠ .slp false) := by
+    (badU p = false → badU p' = false ∧ needTok p = false ∧ needTok p' = true ∧ p ≠ .slp false) ∧
+    dtorRes p' = none ∧ pfPc p' = false := by
   unfold setPopped at h
-  split at h <;> simp at h <;> subst h <;> simp [pcOpOk, poppedOk, inQ, badU, needTok]
+  split at h <;> simp at h <;> subst h <;> simp [pcOpOk, poppedOk, inQ, badU, needTok, dtorRes, pfPc]
 
 theorem popCore_inv2 (s s' : St) (t z g : Nat) (d : Bool) (pcT : Pc) (hi : Inv2 s)
     (hT : pcOpOk pcT (s.curOp t) = true ∧ (∀ r, pcT ≠ .retn r) ∧ (∀ b, poppedOk pcT b = true) ∧
       inQ pcT = false ∧ badU pcT = false ∧ needTok pcT = false)
     (hpt : inQ (s.pc t) = false ∧ needTok (s.pc t) = false)
+    (hT2 : dtorRes pcT = none ∧ pfPc pcT = false)
     (h : popCore s t z g d pcT = some s') : Inv2 s' := by
-  obtain ⟨h1,h2,h3,h4,h4b,h5,h6⟩ := hi
+  obtain ⟨h1,h2,h3,h4,h4b,h5,h6,h7,h8⟩ := hi
   unfold popCore at h
   split at h
   case h_2 => simp at h
@@ -96,7 +125,7 @@ theorem popCore_inv2 (s s' : St) (t z g : Nat) (d : Bool) (pcT : Pc) (hi : Inv2 
   split at h
   case h_2 => simp at h
   rename_i p' hp'
-  obtain ⟨f1, f2, f3, f4, f5, f6⟩ := setPopped_facts2 hp'
+  obtain ⟨f1, f2, f3, f4, f5, f6, f7, f8⟩ := setPopped_facts2 hp'
   have hgt : g' ≠ t := by
     intro he; rw [he] at f4; rw [hpt.1] at f4; simp at f4
   split at h
@@ -104,7 +133,7 @@ theorem popCore_inv2 (s s' : St) (t z g : Nat) (d : Bool) (pcT : Pc) (hi : Inv2 
   rename_i hdrop
   simp only [Option.some.injEq] at h
   subst h
-  refine ⟨?_, ?_, ?_, ?_, ?_, ?_, ?_⟩ <;> dsimp only
+  refine ⟨?_, ?_, ?_, ?_, ?_, ?_, ?_, ?_, ?_⟩ <;> dsimp only
   · intro u
     by_cases hut : u = t
     · subst hut; simp [upd, hT.1]
@@ -161,6 +190,18 @@ theorem popCore_inv2 (s s' : St) (t z g : Nat) (d : Bool) (pcT : Pc) (hi : Inv2 
           split <;> simp [upd, hug]
         simp only [e]
         simp [upd, hut, hug]; exact this
+  · intro u r hu
+    by_cases hut : u = t
+    · subst hut; simp [upd, hT2.1] at hu
+    · by_cases hug : u = g'
+      · subst hug; simp [upd, hut, f7] at hu
+      · simp [upd, hut, hug] at hu; exact h7 u r hu
+  · intro u hp hu
+    by_cases hut : u = t
+    · subst hut; simp [upd, hT2.2] at hu
+    · by_cases hug : u = g'
+      · subst hug; simp [upd, hut, f8] at hu
+      · simp [upd, hut, hug] at hu; exact h8 u hp hu
 
 theorem step_inv2_inv (s s' : St) (t : Nat) (o : Op) (hA : Inv s) (hi : Inv2 s) (h : step s (.inv t o) = some s') : Inv2 s' := by
   have hu := hA.uHolder
@@ -178,9 +219,17 @@ theorem step_inv2_ulRel (s s' : St) (t : Nat) (hA : Inv s) (hi : Inv2 s) (h : st
   have hu := hA.uHolder
   have hn := hA.uNot
   cv_step2
+theorem dtorRes_holdsU {p : Pc} {r : Nat} (h : dtorRes p = some r) : holdsU p = true := by
+  cases p <;> simp [dtorRes] at h <;> simp [holdsU]
+
+theorem pfPc_holdsU {p : Pc} (h : pfPc p = true) : holdsU p = true := by
+  cases p <;> simp [pfPc] at h <;> simp [holdsU]
+
 theorem step_inv2_setFlag (s s' : St) (t : Nat) (v : Bool) (hA : Inv s) (hi : Inv2 s) (h : step s (.setFlag t v) = some s') : Inv2 s' := by
   have hu := hA.uHolder
   have hn := hA.uNot
+  have hd : ∀ u r, dtorRes (s.pc u) = some r → s.ulock = some u := fun u r h => hu u (dtorRes_holdsU h)
+  have hf : ∀ u, pfPc (s.pc u) = true → s.ulock = some u := fun u h => hu u (pfPc_holdsU h)
   cv_step2
 theorem step_inv2_pred (s s' : St) (t : Nat) (v : Bool) (hA : Inv s) (hi : Inv2 s) (h : step s (.pred t v) = some s') : Inv2 s' := by
   have hu := hA.uHolder
@@ -231,6 +280,59 @@ theorem step_inv2_done (s s' : St) (t : Nat) (hA : Inv s) (hi : Inv2 s) (h : ste
   have hn := hA.uNot
   cv_step2
 
+theorem step_inv2_stop0 (s s' : St) (t : Nat) (v : Bool) (hA : Inv s) (hi : Inv2 s) (h : step s (.stop0 t v) = some s') : Inv2 s' := by
+  have hu := hA.uHolder
+  have hn := hA.uNot
+  cv_step2
+theorem step_inv2_stop1 (s s' : St) (t : Nat) (v : Bool) (hA : Inv s) (hi : Inv2 s) (h : step s (.stop1 t v) = some s') : Inv2 s' := by
+  have hu := hA.uHolder
+  have hn := hA.uNot
+  cv_step2
+theorem step_inv2_stop2 (s s' : St) (t : Nat) (v : Bool) (hA : Inv s) (hi : Inv2 s) (h : step s (.stop2 t v) = some s') : Inv2 s' := by
+  have hu := hA.uHolder
+  have hn := hA.uNot
+  cv_step2
+theorem step_inv2_stSeen (s s' : St) (t : Nat) (hA : Inv s) (hi : Inv2 s) (h : step s (.stSeen t) = some s') : Inv2 s' := by
+  have hu := hA.uHolder
+  have hn := hA.uNot
+  cv_step2
+theorem step_inv2_stAcq (s s' : St) (t m : Nat) (hA : Inv s) (hi : Inv2 s) (h : step s (.stAcq t m) = some s') : Inv2 s' := by
+  have hu := hA.uHolder
+  have hn := hA.uNot
+  cv_step2
+theorem step_inv2_stPush (s s' : St) (t : Nat) (b : Bool) (hA : Inv s) (hi : Inv2 s) (h : step s (.stPush t b) = some s') : Inv2 s' := by
+  have hu := hA.uHolder
+  have hn := hA.uNot
+  cv_step2
+theorem step_inv2_stDeq (s s' : St) (t c : Nat) (b : Bool) (hA : Inv s) (hi : Inv2 s) (h : step s (.stDeq t c b) = some s') : Inv2 s' := by
+  have hu := hA.uHolder
+  have hn := hA.uNot
+  cv_step2
+theorem step_inv2_stFin (s s' : St) (t c : Nat) (b : Bool) (hA : Inv s) (hi : Inv2 s) (h : step s (.stFin t c b) = some s') : Inv2 s' := by
+  have hu := hA.uHolder
+  have hn := hA.uNot
+  cv_step2
+theorem step_inv2_stInFin (s s' : St) (t : Nat) (hA : Inv s) (hi : Inv2 s) (h : step s (.stInFin t) = some s') : Inv2 s' := by
+  have hu := hA.uHolder
+  have hn := hA.uNot
+  cv_step2
+theorem step_inv2_stUnlink (s s' : St) (t : Nat) (b : Bool) (hA : Inv s) (hi : Inv2 s) (h : step s (.stUnlink t b) = some s') : Inv2 s' := by
+  have hu := hA.uHolder
+  have hn := hA.uNot
+  cv_step2
+theorem step_inv2_stSelf (s s' : St) (t : Nat) (b : Bool) (hA : Inv s) (hi : Inv2 s) (h : step s (.stSelf t b) = some s') : Inv2 s' := by
+  have hu := hA.uHolder
+  have hn := hA.uNot
+  cv_step2
+theorem step_inv2_stWaited (s s' : St) (t : Nat) (hA : Inv s) (hi : Inv2 s) (h : step s (.stWaited t) = some s') : Inv2 s' := by
+  have hu := hA.uHolder
+  have hn := hA.uNot
+  cv_step2
+theorem step_inv2_stRsDone (s s' : St) (t : Nat) (hA : Inv s) (hi : Inv2 s) (h : step s (.stRsDone t) = some s') : Inv2 s' := by
+  have hu := hA.uHolder
+  have hn := hA.uNot
+  cv_step2
+
 theorem step_inv2_popResume (s s' : St) (t z g : Nat) (d : Bool) (_hA : Inv s) (hi : Inv2 s)
     (h : step s (.popResume t z g d) = some s') : Inv2 s' := by
   simp only [step] at h
@@ -242,7 +344,7 @@ theorem step_inv2_popResume (s s' : St) (t z g : Nat) (d : Bool) (_hA : Inv s) (
   rename_i hpc
   exact popCore_inv2 s s' t z g d .nDone hi
     (by rw [hg.2.2]; simp [pcOpOk, poppedOk, inQ, badU, needTok])
-    (by rw [hpc]; simp [inQ, needTok]) h
+    (by rw [hpc]; simp [inQ, needTok]) (by simp [dtorRes, pfPc]) h
 
 theorem step_inv2_popAll (s s' : St) (t z g : Nat) (d : Bool) (_hA : Inv s) (hi : Inv2 s)
     (h : step s (.popAll t z g d) = some s') : Inv2 s' := by
@@ -251,13 +353,19 @@ theorem step_inv2_popAll (s s' : St) (t z g : Nat) (d : Bool) (_hA : Inv s) (hi 
   case isFalse => simp at h
   rename_i hg
   split at h
-  case h_2 => simp at h
-  rename_i hpc
-  have := hi.opOk t
-  rw [hpc] at this
-  exact popCore_inv2 s s' t z g d .nAll hi
-    (by simp [pcOpOk, poppedOk, inQ, badU, needTok] at this ⊢; exact this)
-    (by rw [hpc]; simp [inQ, needTok]) h
+  case h_3 => simp at h
+  · rename_i hpc
+    have := hi.opOk t
+    rw [hpc] at this
+    exact popCore_inv2 s s' t z g d .nAll hi
+      (by simp [pcOpOk, poppedOk, inQ, badU, needTok] at this ⊢; exact this)
+      (by rw [hpc]; simp [inQ, needTok]) (by simp [dtorRes, pfPc]) h
+  · rename_i k hpc
+    have := hi.opOk t
+    rw [hpc] at this
+    exact popCore_inv2 s s' t z g d (.cAll k) hi
+      (by simp [pcOpOk, poppedOk, inQ, badU, needTok] at this ⊢; exact this)
+      (by rw [hpc]; simp [inQ, needTok]) (by simp [dtorRes, pfPc]) h
 
 theorem step_inv2 (s s' : St) (e : Ev) (hA : Inv s) (hi : Inv2 s) (h : step s e = some s') : Inv2 s' := by
   cases e with
@@ -280,6 +388,19 @@ theorem step_inv2 (s s' : St) (e : Ev) (hA : Inv s) (hi : Inv2 s) (h : step s e 
   | done t => exact step_inv2_done s s' t hA hi h
   | popResume t z g d => exact step_inv2_popResume s s' t z g d hA hi h
   | popAll t z g d => exact step_inv2_popAll s s' t z g d hA hi h
+  | stop0 t v => exact step_inv2_stop0 s s' t v hA hi h
+  | stop1 t v => exact step_inv2_stop1 s s' t v hA hi h
+  | stop2 t v => exact step_inv2_stop2 s s' t v hA hi h
+  | stSeen t => exact step_inv2_stSeen s s' t hA hi h
+  | stAcq t m => exact step_inv2_stAcq s s' t m hA hi h
+  | stPush t b => exact step_inv2_stPush s s' t b hA hi h
+  | stDeq t c b => exact step_inv2_stDeq s s' t c b hA hi h
+  | stFin t c b => exact step_inv2_stFin s s' t c b hA hi h
+  | stInFin t => exact step_inv2_stInFin s s' t hA hi h
+  | stUnlink t b => exact step_inv2_stUnlink s s' t b hA hi h
+  | stSelf t b => exact step_inv2_stSelf s s' t b hA hi h
+  | stWaited t => exact step_inv2_stWaited s s' t hA hi h
+  | stRsDone t => exact step_inv2_stRsDone s s' t hA hi h
 
 theorem inv2_of_accepted {n : Nat} {f : Bool} {log : List Ev} {s : St}
     (h : runLog step (init n f) log = some s) : Inv s ∧ Inv2 s := by
